@@ -170,6 +170,12 @@ def run_caches(ctx):
         good = len(pb) == 1 and pb[0][1][2][1][0] == "agg" and len(pb[0][1][2][1][2]) == 3 and nbv_key(Local(2))(pb[0][1][2][1][2][0]) and \
             Field(Local(3), "0")(pb[0][1][2][1][2][1]) and Field(Local(3), "1")(pb[0][1][2][1][2][2])
         req(ctx, rule, K + "stores-given-state", good, "push_back((key, values.0, values.1))", "RingBufferCache::insert does not store the given (key, seed, control bit)", loc=f.loc)
+        # stored entries are immutable: the ring changes only by push_back / pop; nothing rewrites an entry in place
+        # (an entry rewritten under another entry's key is a stale hit waiting to happen)
+        muts = sorted(set(t.callee.name for bi, t in f.body.calls()
+                          if t.callee.name in ("index_mut", "get_mut", "iter_mut", "back_mut", "front_mut", "swap", "insert", "as_mut_slices", "make_contiguous", "range_mut", "retain_mut")
+                          and t.args and Mentions(Field(Local(1), "ring"))(g.eb.operand(t.args[0]))))
+        req(ctx, rule, K + "entries-immutable", not muts, "no stored entry is modified in place", "stored entries are modified in place via %s" % muts, loc=f.loc)
         # eviction policy is deliberately not constrained: losing entries is always harmless for transparency
         ctx.note("RingBufferCache eviction calls: %s (not constrained - a cache may drop anything)" % [c[1].split("::")[-1] for _, c in pf])
     except Skip:
